@@ -393,6 +393,11 @@ class TDS(BaseRoutine):
             if self.callpert is not None:
                 self.callpert(dae.t, system)
 
+                # a perturbation that flags a custom event may have switched devices: update the islanding
+                # information before this step is solved, or a newly isolated bus makes the Jacobian singular
+                if self.custom_event is True and self.config.check_conn == 1:
+                    system.connectivity(info=False)
+
             step_status = False
             # call the stepping method of the integration method (or data replay)
             if self.data_csv is None:
